@@ -393,6 +393,18 @@ class SeqFlow(object):
 
     def _loop(self, s, seqs):
         out = {}
+        if getattr(s, '_once', False) or (
+                isinstance(s, ast.For) and isinstance(s.target, ast.Name)
+                and s.target.id == '__once'):
+            # single-pass loop produced by helper inlining: the body runs
+            # exactly once, ``break`` leaves it
+            r = self.block(s.body, seqs)
+            done = r.pop(NORMAL, set()) | r.pop(BREAK, set()) | \
+                r.pop(CONTINUE, set())
+            for k, v in r.items():
+                self._merge(out, k, v)
+            self._merge(out, NORMAL, done)
+            return out
         if isinstance(s, ast.While):
             head = s.test
             infinite = isinstance(s.test, ast.Constant) and bool(s.test.value)
